@@ -125,7 +125,7 @@ def unit(p, item, tier, seed):
     kind, arg = item
     rnd = random.Random(arg if isinstance(arg, int) else 0)
     if kind == "feature":
-        fam = [(n, c) for n, c in circgen.feature_circuits() if c.outputs]
+        fam = [(n, c) for n, c in circgen.feature_circuits() + circgen.large_circuits(0) if c.outputs]
         for n, c in fam:
             for vn, v in variants(c, rnd):
                 check_pair(p, f"{n}/{vn}", c, v)
